@@ -384,7 +384,15 @@ def inline_math(body, lang='en', delims=('$', '$'), nth=None):
     s = delims[0] + body + delims[1]
     coll = INLINE[lang]
     ph = esc(coll[(nth + 1) % len(coll)]) if nth is not None else alt(coll)
-    last = body.strip()[-1:] if body.strip() else ''
+    core = body.strip()
+    while True:
+        for sp in ('\\,', '\\;', '\\:', '\\ ', '~', '\\quad', '\\!'):
+            if core.endswith(sp):
+                core = core[:-len(sp)].rstrip()
+                break
+        else:
+            break
+    last = core[-1:]
     punct = esc(last) if last in '.,;:' else ''
     n = N(s, [('G', 0, len(s), ph + punct)], spans=[(0, len(s))])
     n.hid = [(len(delims[0]), len(delims[0]) + len(body))]
